@@ -613,3 +613,81 @@ Section MovedPipeline.
       apply refine_at_moved; assumption.
   Qed.
 End MovedPipeline.
+
+(* ============================================ blank canvases built by [embed] *)
+Fixpoint inb (sh p : list Z) : bool :=
+  match sh, p with
+  | [], [] => true
+  | n :: sh', i :: p' => (0 <=? i) && (i <? n) && inb sh' p'
+  | _, _ => false
+  end.
+
+Lemma inb_iff : forall sh p, inb sh p = true <-> in_bounds sh p.
+Proof.
+  unfold in_bounds. induction sh as [|n sh IH]; intros [|i p]; cbn.
+  - split; [constructor|reflexivity].
+  - split; [discriminate|intros H; inversion H].
+  - split; [discriminate|intros H; inversion H].
+  - rewrite !andb_true_iff, IH, Z.leb_le, Z.ltb_lt. split.
+    + intros [[? ?] ?]. constructor; [lia|assumption].
+    + intros H. inversion H; subst. repeat split; try lia. assumption.
+Qed.
+
+Lemma nth_error_zrange : forall n i, 0 <= i < n -> nth_error (zrange n) (Z.to_nat i) = Some i.
+Proof.
+  intros n i H. unfold zrange.
+  rewrite (map_nth_error Z.of_nat (Z.to_nat i) (seq 0 (Z.to_nat n)) (d := Z.to_nat i)); [f_equal; lia|].
+  rewrite (nth_error_nth' _ 0%nat) by (rewrite seq_length; lia). rewrite seq_nth by lia. reflexivity.
+Qed.
+
+Lemma get_arr_of : forall sh f p, get (arr_of sh f) p = if inb sh p then f p else 0.
+Proof.
+  induction sh as [|n sh IH]; intros f [|i p]; cbn [arr_of get inb]; try reflexivity.
+  destruct (i <? 0) eqn:E0.
+  - apply Z.ltb_lt in E0. destruct (0 <=? i) eqn:E1; [apply Z.leb_le in E1; lia|reflexivity].
+  - apply Z.ltb_ge in E0. destruct (0 <=? i) eqn:E1; [|apply Z.leb_gt in E1; lia]. cbn [andb].
+    destruct (i <? n) eqn:E2.
+    + apply Z.ltb_lt in E2.
+      rewrite (map_nth_error _ _ _ (nth_error_zrange n i ltac:(lia))). cbn [andb]. rewrite IH. reflexivity.
+    + apply Z.ltb_ge in E2. cbn [andb].
+      destruct (nth_error _ (Z.to_nat i)) eqn:En; [|reflexivity].
+      assert (nth_error (map (fun i0 => arr_of sh (fun c => f (i0 :: c))) (zrange n)) (Z.to_nat i) = None).
+      { apply nth_error_None. unfold zrange. rewrite !map_length, seq_length. lia. }
+      congruence.
+Qed.
+
+Lemma pix_embed : forall sh off im q,
+  pix (embed sh off im) q = if inb sh q then pix im (vsub q off) else 0.
+Proof. intros. unfold embed, pix at 1. cbn [data]. rewrite get_arr_of. reflexivity. Qed.
+
+Lemma vsub_vadd_vsub : forall p a b, length p = length a -> length b = length a ->
+  vsub (vadd p (vsub b a)) b = vsub p a.
+Proof.
+  induction p as [|x p IH]; intros [|y a] [|z b] H1 H2; cbn in *; try discriminate; auto.
+  f_equal; [lia|apply IH; lia].
+Qed.
+
+Lemma vadd_vsub_swap : forall p a b, length p = length a -> length b = length a ->
+  vadd (vsub p a) b = vadd p (vsub b a).
+Proof.
+  induction p as [|x p IH]; intros [|y a] [|z b] H1 H2; cbn in *; try discriminate; auto.
+  f_equal; [lia|apply IH; lia].
+Qed.
+
+(* the same content pasted at two offsets into two blank canvases: the second image is
+   the first one moved by the offset difference, provided the content fits in both *)
+Theorem embed_moved : forall content sh1 off1 sh2 off2,
+  length off1 = length sh1 -> length off2 = length sh1 -> length sh2 = length sh1 ->
+  (forall c, length c = length sh1 -> pix content c <> 0 ->
+             in_bounds sh1 (vadd c off1) /\ in_bounds sh2 (vadd c off2)) ->
+  moved (vsub off2 off1) (embed sh1 off1 content) (embed sh2 off2 content).
+Proof.
+  intros content sh1 off1 sh2 off2 L1 L2 L3 Hfit. split; [cbn; exact L3|].
+  intros p Hp. cbn [embed shape] in Hp. rewrite !pix_embed.
+  rewrite vsub_vadd_vsub by lia.
+  destruct (Z.eq_dec (pix content (vsub p off1)) 0) as [E|E].
+  - rewrite E. destruct (inb sh2 _), (inb sh1 p); reflexivity.
+  - destruct (Hfit (vsub p off1) ltac:(rewrite vsub_length; lia) E) as [B1 B2].
+    rewrite vadd_vsub in B1 by lia. rewrite vadd_vsub_swap in B2 by lia.
+    apply inb_iff in B1, B2. rewrite B1, B2. reflexivity.
+Qed.
